@@ -23,6 +23,8 @@ type C07Params struct {
 	Pos      int         `json:"pos"`      // cancel once the target has produced this many events
 	Others   []*CallSpec `json:"others"`
 	WYield   bool        `json:"wyield,omitempty"` // scheduling point at the entry of the client's transport writes
+	HoldSender bool      `json:"hold_sender,omitempty"` // MidWrite: that task stays off the processor until everything else has come to rest
+	MidWrite bool        `json:"mid_write,omitempty"` // the fault lands when, from Pos on, a task of the target call stands at the entry of a transport write (needs WYield)
 	Ambig    bool        `json:"ambig,omitempty"`  // the client's transport reports a write cut short by its context as failed although the envelope was delivered
 }
 
@@ -118,6 +120,12 @@ func genC07(g *rand.Rand, tier string) any {
 		p.Pos = g.IntN(3)
 		p.Links[0].Cap = 0 // the open returns only once the server has taken it
 		p.Deadline = false
+	}
+	if p.WYield && !p.Deadline && g.IntN(3) == 0 {
+		// aimed: between a sender's last look at its context and its transport write
+		p.MidWrite = true
+		p.HoldSender = g.IntN(2) == 0
+		p.Links[0].Strict = g.IntN(4) == 0
 	}
 	if g.IntN(2) == 0 {
 		// other calls on the connection (must be unaffected)
@@ -215,8 +223,26 @@ func execC07(e *Env, pp any) {
 		}
 		return n
 	}
+	writerName := ""
+	atWrite := func() bool {
+		for _, v := range e.W.Snapshot() {
+			if !v.Done && v.Started && v.Parked && v.Site == "link.write" && strings.HasPrefix(v.Name, "caller.target") && !strings.Contains(v.Name, "/") {
+				writerName = v.Name
+				return true
+			}
+		}
+		return false
+	}
 	e.NoAutoAdvance = true
-	reason := e.Drive(func() bool { return targetEvents() >= p.Pos })
+	reason := e.Drive(func() bool {
+		if targetEvents() < p.Pos {
+			return false
+		}
+		return !p.MidWrite || atWrite()
+	})
+	if p.MidWrite && reason == CondMet && atWrite() {
+		e.Note("cancel.mid-write")
+	}
 	e.NoAutoAdvance = false
 	if reason == Crashed || reason == StepLimit {
 		return
@@ -257,6 +283,17 @@ func execC07(e *Env, pp any) {
 	// stream's read loop stuck writing its reset (known finding F05)?
 	rstBlocked := false
 	e.NoAutoAdvance = true
+	if p.MidWrite && p.HoldSender && writerName != "" {
+		// the sender is a slow thread: everything else comes to rest first
+		e.Held = writerName
+		reason = e.Drive(nil)
+		e.Held = ""
+		e.Note("cancel.mid-write.sender-held")
+		if reason == Crashed || reason == StepLimit {
+			e.NoAutoAdvance = false
+			return
+		}
+	}
 	reason = e.Drive(nil)
 	e.NoAutoAdvance = false
 	if reason == Quiescent {
